@@ -477,7 +477,15 @@ fn run_case(model: Option<&mut Model>, proc_: &mut Proc, rep: &mut Report, case:
         for b in sealed.iter().take(3) {
             for k in 0..3 {
                 let frame = if k == 0 { b.clone() } else { mutate(rng, b) };
-                let real_is_batch = matches!(bincode::deserialize::<MempoolMessage>(&frame), Ok(MempoolMessage::Batch(..)));
+                // a mutated frame may decode as the BatchRequest variant, whose PublicKey goes through
+                // `decode_base64` and can panic there (defect F3, property C15 — not a batch message, outside C11)
+                let real_is_batch = match std::panic::catch_unwind(|| matches!(bincode::deserialize::<MempoolMessage>(&frame), Ok(MempoolMessage::Batch(..)))) {
+                    Ok(b) => b,
+                    Err(_) => {
+                        rep.hit("handler.real-deserialize-panicked(F3,non-batch-variant)");
+                        false
+                    }
+                };
                 let r = model.ask(&format!("(bm handler x{})", hex(&frame)));
                 let want = if real_is_batch { format!("(forward x{})", hex(&frame)) } else { "(drop)".to_string() };
                 rep.hit(if real_is_batch { "handler.batch" } else { "handler.not-batch" });
@@ -501,6 +509,9 @@ pub fn run(o: &Opts) -> Report {
     std::panic::set_hook(Box::new(|info| {
         let loc = info.location().map(|l| format!("{}:{}:{}", l.file(), l.line(), l.column())).unwrap_or_default();
         let msg = info.payload().downcast_ref::<&str>().map(|s| s.to_string()).or_else(|| info.payload().downcast_ref::<String>().cloned()).unwrap_or_default();
+        if !loc.contains("mempool/src/batch_maker.rs") && !loc.contains("crypto/src/lib.rs") {
+            eprintln!("harness panic at {}: {}", loc, msg); // not the code under test: make it visible
+        }
         PANICS.lock().unwrap().push(format!("panicked at {}: {}", loc, msg));
     }));
     let mut proc_ = Proc::new(o.seed);
